@@ -62,6 +62,7 @@ type TS struct {
 	mu      sync.Mutex
 	outbox  []hotline.Transaction // direct mode
 	stopCol chan struct{}
+	direct  bool
 }
 
 func allAccess() hotline.AccessBitmap {
@@ -166,6 +167,7 @@ func newTS(opt TSOpt) (*TS, error) {
 	srv.Banner = []byte("JPEGDATA")
 	mobius.RegisterHandlers(srv)
 	if opt.Direct {
+		ts.direct = true
 		go ts.collect()
 	} else if !opt.NoOutbox {
 		go srv.VerifProcessOutbox()
@@ -261,8 +263,36 @@ func (ts *TS) Call(cc *hotline.ClientConn, t hotline.Transaction) (res []hotline
 		}()
 		res = h(cc, &t)
 	}()
-	// the collector goroutine has received everything sent synchronously on the unbuffered outbox
-	return res, ts.TakeOutbox(), panicked
+	return res, ts.drainOutbox(), panicked
+}
+
+// drainOutbox returns everything queued on the outbox so far.  The collector goroutine appends after it
+// receives, so a marker is pushed through the (FIFO, single-consumer) channel and awaited first.
+func (ts *TS) drainOutbox() []hotline.Transaction {
+	if !ts.direct {
+		return ts.TakeOutbox()
+	}
+	marker := hotline.Transaction{Type: hotline.TranType{0xff, 0xfe}}
+	binary.BigEndian.PutUint32(marker.ID[:], uint32(time.Now().UnixNano()))
+	select {
+	case ts.Srv.VerifOutbox() <- marker:
+	case <-time.After(5 * time.Second):
+		return ts.TakeOutbox()
+	}
+	var out []hotline.Transaction
+	waitFor(5*time.Second, func() bool {
+		ts.mu.Lock()
+		defer ts.mu.Unlock()
+		for i, t := range ts.outbox {
+			if t.Type == marker.Type && t.ID == marker.ID {
+				out = append(out, ts.outbox[:i]...)
+				ts.outbox = append([]hotline.Transaction{}, ts.outbox[i+1:]...)
+				return true
+			}
+		}
+		return false
+	})
+	return out
 }
 
 func mkTran(ty hotline.TranType, id uint32, fields ...hotline.Field) hotline.Transaction {
